@@ -113,6 +113,19 @@ def gen_rounds(seed, tier, run):
             out3.append(f"display@f64 {sarr(sh, fs)} {opt(prec)} z{alt} {sarr(sh, [repr(v) for v in vals])}")
         out3.append(f"display@str {sarr(sh, [rng.choice(['ab', 'c d', 'x', '']) for _ in range(n)])} n z{rng.randint(0, 1)}")
         out3.append(f"display@bool {sarr(sh, [rng.choice(['true', 'false']) for _ in range(n)])} n z{rng.randint(0, 1)}")
+    # compound element types through array_single!: members with separators, brackets, quotes, blanks
+    nasty = ["a", "a,b", ",", "f(x)", "(", ")", "[", "]", "[x]", " b", "b ", '"', 'q"q', "", "a, b", "x\ny", "-", "(a, b)", "[a, b]"]
+    for a_, b_ in itertools.product(nasty, repeat=2):
+        out3.append(f"m_single_compound@str {sarr([2], [a_, b_])}")
+        out3.append(f"m_single_compound@list {sarr([2], [a_, b_])}")
+    for a_ in nasty:
+        out3.append(f"m_single_compound@list {sarr([1], [a_])}")
+        out3.append(f"m_single_compound@str {sarr([3], [a_, 'm', a_])}")
+        out3.append(f"m_single_compound@list {sarr([3], ['k', a_, a_])}")
+        if a_:
+            out3.append(f"m_single_compound@char {sarr([2], [a_, 'xyz'])}")
+            out3.append(f"m_single_compound@charlist {sarr([1], [a_])}")
+            out3.append(f"m_single_compound@charlist {sarr([3], [a_, 'z', a_])}")
     atoms = ["1", "-2", "ab", "x y", "3.5", "", "true", "Z9", " lead", "trail ", " ", "  both  ", "\tt", "a  b"]
     for a, b in itertools.product(atoms, repeat=2):
         out3.append(f"tuple_text {sarr([2], [a, b])}")
